@@ -201,6 +201,9 @@ func runCheck(pc *PropConfig, tier string, seed int, writeBaseline, verbose bool
 	replayDir := filepath.Join(outDir(), "replays")
 	os.MkdirAll(replayDir, 0o755)
 
+	if len(pc.Extra) > 0 {
+		patterns = []string{"./..."}
+	}
 	var l *Loaded
 	if len(patterns) > 0 {
 		var err error
